@@ -365,8 +365,9 @@ FrArrays    == {"arr-empty", "arr-arr-empty", "arr-null", "arr-scalar", "arr-obj
                 "arr-huge", "arr-huge-null", "deep"}
 FrTruncated == {"truncated-arr", "truncated-obj"}
 FrShapes    == {"empty", "ws", "two-values"} \cup FrScalars \cup FrObjects \cup FrArrays \cup FrTruncated
-\* white space: none / between the tokens of the frame (`[ ]`, `[\t]`, `[\n]`) / around the frame
-FrPads  == {"none", "inner", "outer"}
+\* white space: none / between the tokens of the frame (`[ ]`, `[\t]`, `[\n]`) / before the frame / after it
+\* (on a newline-delimited stream: between the frame and what ends it)
+FrPads  == {"none", "inner", "lead", "trail"}
 \* what ends the frame on a newline-delimited stream: LF, CR LF, or the end of the stream
 FrTerms == {"lf", "crlf", "eof", "na"}
 FrNdPaths   == {"ioconn.read", "io.server", "io.client"}
@@ -393,8 +394,8 @@ ValidFr(c) ==
   /\ c.path \in {"sse.client.read", "sse.server.post"} => c.proto = "2025-03-26"
 FrCaseSet == {c \in FrCases : ValidFr(c)}
 
-\* every member of the frame is a message the reader accepts (and a batch is not empty, no call id twice)
-FrWellFormed(s) == s \in {"obj-msg", "obj-notif", "obj-resp", "arr-one", "arr-two", "arr-notifs", "arr-resp", "arr-huge"}
+\* every member of the frame is a message the reader accepts, and a batch is not empty
+FrWellFormed(s) == s \in {"obj-msg", "obj-notif", "obj-resp", "arr-one", "arr-two", "arr-notifs", "arr-resp", "arr-huge", "arr-dupid"}
 FrIsBatch(s)    == s \in FrArrays \cup {"null"}     \* `null` unmarshals into a (nil) slice of raw messages
 \* nothing but white space: the reader of a stream does not see a frame at all
 FrVoid(s)       == s \in {"empty", "ws"}
@@ -404,25 +405,30 @@ FrVoid(s)       == s \in {"empty", "ws"}
 \* goroutine), "crash" (the process died while this case was in flight), "hang" (neither within the time limit).
 FrOuts == {"value", "error", "panic", "crash", "hang"}
 
-\* Code shape (transport.go readBatch / ioConn.Read, streamable.go servePOST, sse.go): a frame that is not
-\* well formed is a read error (400 over HTTP); a well-formed batch is refused once a version >= 2025-06-18
-\* is known to the reader; the legacy SSE paths and the streamable client decode one message per body/event
-\* (jsonrpc2.DecodeMessage), so every array is an error there; a stream that ends with the frame ends the
-\* session.  Where the result depends on more than the frame (what a session does with a well-formed
-\* message before / after its handshake) both "value" and "error" are expected.
+\* Code shape (transport.go readBatch / ioConn.Read, streamable.go servePOST and the client's handleJSON /
+\* processStream, sse.go).  A frame that is not well formed is a read error (HTTP: status 400; a session: its
+\* end).  ioConn.Read refuses a batch in which two calls have the same id; servePOST does not look.  A
+\* well-formed batch is refused once a version >= 2025-06-18 is known to the reader: ioConn learns the
+\* version of a server session only (sessionUpdated), the HTTP server reads it from the request header.
+\* The legacy SSE paths and the streamable client decode one message per body / event
+\* (jsonrpc2.DecodeMessage): every array is an error there.  White space alone is skipped by the decoder of
+\* a stream (the next line is read) and is an SSE event without data, which the streamable client skips;
+\* anywhere else it is an undecodable body.  A stream that ends with the frame ends the session.  ioConn
+\* accepts only a line end directly after a JSON text - if the next byte is already in the decoder's buffer.
 ExpectedFr(c) ==
   LET s == c.shape
+      nd == c.path \in FrNdPaths
+      session == c.path \in {"io.server", "io.client"}
       single == c.path \in {"sse.client.read", "sse.server.post", "http.client.json", "http.client.sse"}
       versioned == \/ c.path \in {"http.post.stateless", "http.post.stateful"}
-                   \/ c.pos = "after"
+                   \/ (c.pos = "after" /\ c.path \in {"ioconn.read", "io.server"})
       refused == FrIsBatch(s) /\ versioned /\ c.proto = "2025-11-25"
-  IN IF FrVoid(s) THEN (IF c.path = "ioconn.read" /\ c.term # "eof" THEN {"value"}   \* the next line is read
-                        ELSE IF c.path \in {"io.server", "io.client"} /\ c.term # "eof" THEN {"value", "error"}
-                        ELSE {"error"})
-     ELSE IF ~FrWellFormed(s) \/ refused \/ (single /\ FrIsBatch(s)) THEN {"error"}
-     ELSE IF c.path = "ioconn.read" THEN {"value"}
-     ELSE IF c.path \in {"io.server", "io.client"} /\ c.term = "eof" THEN {"error"}
-     ELSE {"value", "error"}
+      wellformed == FrWellFormed(s) /\ (s = "arr-dupid" => ~nd)
+  IN IF FrVoid(s) THEN (IF (nd /\ c.term # "eof") \/ c.path = "http.client.sse" THEN {"value"} ELSE {"error"})
+     ELSE IF ~wellformed \/ refused \/ (single /\ FrIsBatch(s)) THEN {"error"}
+     ELSE IF session /\ c.term = "eof" THEN {"error"}
+     ELSE IF nd /\ c.pad = "trail" THEN {"value", "error"}
+     ELSE {"value"}
 
 \* the property: whatever the bytes, the reader produces a message or an error
 NoPanicFr(c, o) == o.out \notin {"panic", "crash"}
